@@ -303,8 +303,15 @@ pub fn disturbance_pass<T: Sync>(
     check: &(dyn Fn(&T) -> Result<(), String> + Sync),
     to_case: &dyn Fn(&T) -> (String, Value, String),
 ) -> PResult {
+    let concurrent_only = matches!(run.cold, Some(c) if c >= 2000);
     if let Some(code) = run.cold {
-        if code >= 1000 {
+        if code >= 2000 {
+            // replay of an `<ID>.concurrent` case: only the concurrent phase of stress pass (code - 2000)
+            if run.pass_counter != code - 2000 {
+                run.pass_counter += 1;
+                return Ok(());
+            }
+        } else if code >= 1000 {
             // single-threaded cold start on the first stress pass: item `start` first, then every item
             // ascending, then descending
             if run.pass_counter != 0 {
@@ -352,6 +359,7 @@ pub fn disturbance_pass<T: Sync>(
             }
             std::process::exit(0);
         }
+        if code < 1000 {
         let (k, rep) = (code % 16, code / 16);
         if run.pass_counter != k {
             run.pass_counter += 1;
@@ -416,10 +424,14 @@ pub fn disturbance_pass<T: Sync>(
             }
         }
         std::process::exit(0);
+            }
     }
     if run.is_twin() {
         return Ok(());
     }
+    // stress passes are numbered (for replays of concurrent cases)
+    let this_pass = if run.cold.is_some() { run.pass_counter } else { run.pass_counter += 1; run.pass_counter - 1 };
+    if !concurrent_only {
     let menu_len = disturbance_menu().len() as u64;
     let n = items.len() as u64 * menu_len;
     let hit = after_disturbances(items, &|t| check(t));
@@ -441,6 +453,7 @@ pub fn disturbance_pass<T: Sync>(
         let len = items.len();
         let picks: Vec<(usize, usize)> = [0usize, len / 7, len / 3, len / 2, (2 * len) / 3, len - 1].iter().enumerate().map(|(pi, i)| ((*i).min(len - 1), if pi < 3 { 66_000 } else { 1100 })).collect();
         repetition_soak(run, items, &picks, check, to_case)?;
+    }
     }
     // concurrent phase
     const THREADS: usize = 8;
@@ -519,14 +532,24 @@ pub fn disturbance_pass<T: Sync>(
         }
     }
     }
+    if concurrent_only {
+        match first.into_inner().unwrap() {
+            None => println!("COLDRESULT ok"),
+            Some((i, m)) => {
+                let (clause, case, sig) = to_case(&items[i]);
+                println!("COLDRESULT fail {}", serde_json::to_string(&json!({"cold_code": 2000 + this_pass, "clause": clause, "case": case, "sig": sig, "message": format!("while 8 threads were calling the API at the same time: {}", m)})).unwrap());
+            }
+        }
+        std::process::exit(0);
+    }
     let total = (THREADS * rounds * len + hot_total) as u64;
     run.generator("items checked from 8 threads at once", "concurrent stress (not schedule-controlled)", None, total, total, "each thread walks the items from its own offset and runs an API disturbance every 24 checks; then hot sets (64 items x 100 rounds; for large item lists also 512 items x 40 rounds) are hammered by all threads in different orders; a property-based harness does not own the schedule, so this finds races only with the probability of the interleaving");
     if let Some((i, m)) = first.into_inner().unwrap() {
         let (clause, case, sig) = to_case(&items[i]);
         let id = run.id.clone();
         let alone = check(&items[i]);
-        let note = if alone.is_ok() { " — the same check passes when repeated on one thread: the result depends on what other threads are doing" } else { "" };
-        return run.violation(&format!("{}.concurrent", id), &sig, json!({"clause": clause, "case": case}), &format!("while 8 threads were calling the API at the same time: {}{}", m, note));
+        let note = if alone.is_ok() { " — the same check passes when repeated on one thread: the result depends on what other threads are doing (the replay re-runs this concurrent phase in a child process, up to 12 times)" } else { "" };
+        return run.violation(&format!("{}.concurrent", id), &sig, json!({"clause": clause, "case": case, "cold_code": 2000 + this_pass, "profile": crate::engine::profile()}), &format!("while 8 threads were calling the API at the same time: {}{}", m, note));
     }
     Ok(())
 }
@@ -596,7 +619,7 @@ pub fn replay_after_disturbance(case: &Value, check_case: fn(&str, &Value) -> Re
         let prof = case["profile"].as_str().unwrap_or("checked");
         let root = crate::engine::verif_root();
         let bin = crate::engine::twin_binary(&root, prof);
-        let tries = if code >= 1000 { 1 } else { 12 };
+        let tries = if (1000..2000).contains(&code) { 1 } else { 12 };
         for _ in 0..tries {
             let out = std::process::Command::new(&bin).arg(&id).arg("--cold").arg(format!("{}", code)).env("VERIF_ROOT", &root).stderr(std::process::Stdio::null()).output().map_err(|e| format!("cannot run {}: {}", bin.display(), e))?;
             let text = String::from_utf8_lossy(&out.stdout).to_string();
